@@ -28,7 +28,11 @@ class DefaultNamingStrategy(NamingStrategy):
     """
 
     def apply(self, remote_path: str, local_dir: str, local_filename: str) -> tuple[str, str]:
-        return local_dir, split_remote_path(remote_path)[-1]
+        filename = split_remote_path(remote_path)[-1]
+        # '.' and '..' refer to a directory and can never be the name of a file
+        if filename in ('.', '..'):
+            filename = filename.replace('.', '_')
+        return local_dir, filename
 
 
 class KeepDirectoryStrategy(NamingStrategy):
